@@ -1,4 +1,5 @@
 import Glas.Lemmas.Text
+import Glas.Lemmas.TextCR
 import Glas.Model.TextSpec
 /-!
 # C13 — the server's copy of a document tracks the editor's through any edits
@@ -9,13 +10,65 @@ what the editor sends: `clientLineCol c k` for a character index `k` of its own 
 namespace Glas.Props.C13
 open Glas.Text
 
-/-- column conversion inside one line: the UTF-16 column of a character boundary is mapped to its
-byte offset (the loop of `pos_for_line_col`) -/
-theorem col_to_byte (cs : List Char) (k : Nat) (hk : k ≤ cs.length) :
-    posForCol (diffsOf cs 0) (u16sum (cs.take k)) = u8sum (cs.take k) := by
-  have := posForCol_correct cs 0 k hk
-  simpa using this
+/-- on a document with LF/CRLF line breaks, at an index where an editor can place a position, the
+position computed on the editor's text is the position of the corresponding character of the
+server's CR-free text -/
+theorem clientPos_strip (c : List Char) (k : Nat) (hwf : wfCRLF c = true) (hv : validIdx c k) :
+    clientLineCol c k = clientLineCol (stripCR c) (stripCR (c.take k)).length := by
+  exact clientLineCol_strip c k hwf hv
 
+/-- a valid LSP position is converted to the byte offset of the same character in the server's
+text -/
+theorem pos_tracks (c : List Char) (k : Nat) (hwf : wfCRLF c = true) (hv : validIdx c k)
+    (hlen : u8sum (stripCR c) < U32) :
+    (lineMap (stripCR c)).posForLineCol (clientLineCol c k).1 (clientLineCol c k).2
+      = some (u8sum (stripCR (c.take k))) := by
+  rw [clientLineCol_strip c k hwf hv, posForLineCol_client _ _ hlen, (stripCR_take_drop c k).1]
+
+/-- one ranged change: the server's new text is the editor's new text without carriage returns -/
+theorem edit_tracks (c : List Char) (j k : Nat) (ins : List Char) (hwf : wfCRLF c = true)
+    (hjk : j ≤ k) (hj : validIdx c j) (hk : validIdx c k) (hlen : u8sum (stripCR c) < U32) :
+    serverApply (stripCR c) c (.range j k ins) = .ok (stripCR (clientApply c (.range j k ins))) := by
+  have hpj := pos_tracks c j hwf hj hlen
+  have hpk := pos_tracks c k hwf hk hlen
+  have htj : c.take j = (c.take k).take j := by rw [List.take_take, Nat.min_eq_left hjk]
+  have hle : u8sum (stripCR (c.take j)) ≤ u8sum (stripCR (c.take k)) := by
+    have h := (stripCR_take_drop (c.take k) j).1
+    rw [← htj] at h
+    rw [← h]
+    exact u8sum_take_le _ _
+  have hkle : ¬ u8sum (stripCR (c.take k)) > u8sum (stripCR c) := by
+    have := u8sum_take_le (stripCR c) (stripCR (c.take k)).length
+    rw [(stripCR_take_drop c k).1] at this
+    omega
+  have hsj := splitAtByte_take (stripCR c) (stripCR (c.take j)).length
+  have hsk := splitAtByte_take (stripCR c) (stripCR (c.take k)).length
+  rw [(stripCR_take_drop c j).1, (stripCR_take_drop c j).2] at hsj
+  rw [(stripCR_take_drop c k).1, (stripCR_take_drop c k).2] at hsk
+  simp only [serverApply, applyChange, LineMap.fromRange, hpj, hpk, if_pos hle, changeFileContent,
+    if_neg hkle, hsj, hsk, clientApply]
+  simp only [stripCR_append, stripCR_idem]
+
+/-- any history of valid changes (ranged and full-text mixed; the line map is rebuilt after each,
+as in `on_did_change`): the server's text equals the editor's text with carriage returns removed -/
+theorem history_tracks (c : List Char) (es : List Edit) (hwf : wfCRLF c = true)
+    (hlen : u8sum c < U32) (hv : ValidHistory c es) :
+    serverRun (stripCR c) c es = .ok (stripCR (clientRun c es)) := by
+  induction es generalizing c with
+  | nil => rfl
+  | cons e es ih =>
+    obtain ⟨hve, hwf', hlen', hrest⟩ := hv
+    have hstep : serverApply (stripCR c) c e = .ok (stripCR (clientApply c e)) := by
+      cases e with
+      | full ins => rfl
+      | range j k ins =>
+        obtain ⟨hjk, hj, hk⟩ := hve
+        have := u8sum_stripCR_le c
+        exact edit_tracks c j k ins hwf hjk hj hk (by omega)
+    simp only [serverRun, hstep, clientRun]
+    exact ih (clientApply c e) hwf' hlen' hrest
+
+/-- non-vacuity: a CRLF document with a character outside the BMP, two edits -/
 example : serverRun (stripCR "a💣\r\nb".toList) "a💣\r\nb".toList
     [.range 1 2 "ß\r\n".toList, .range 4 6 []] = .ok "aß\nb".toList := by decide
 
